@@ -16,6 +16,7 @@ func init() {
 	commands["c01"] = func(e *env) { fullStack(e, "C01", 1) }
 	commands["c02"] = func(e *env) { fullStack(e, "C02", 2) }
 	commands["c09"] = func(e *env) { fullStack(e, "C09", 9) }
+	commands["c08"] = func(e *env) { fullStack(e, "C08", 8) }
 }
 
 // one step of a full-stack history, as written into replays and evidence
@@ -44,6 +45,9 @@ func cfgGallina(orca string, locked bool) string {
 }
 
 // genTTL draws from the TTL classes of DESIGN.md §5.5
+// withStat adds stat/stats requests to the pipelines (C08 runs)
+var withStat bool
+
 // ttlBeyond enables the TTL class "absolute expiry further away than the clock value itself"
 // (only in the C09 runs): it triggers the known finding on the L1 back-fill.
 var ttlBeyond bool
@@ -173,6 +177,9 @@ func genReq(r *rig.Rand, proto string, deploy string, now int64, w *rig.Writer) 
 			}
 			return stack.Req{Kind: "noop", Opaque: opq()}
 		case 15:
+			if withStat && r.Chance(40) {
+				return stack.Req{Kind: "stat", Opaque: opq()}
+			}
 			if r.Bool() {
 				return stack.Req{Kind: "version", Opaque: opq()}
 			}
@@ -337,6 +344,9 @@ func caseTags(c fsCase) []string {
 		if c.Locked && c.Proto == "text" && st.Req.Kind == "get" && len(st.Req.Items) > 1 {
 			tags = append(tags, "locked-text-multiget-end-per-key")
 		}
+		if c.Proto == "text" && st.Req.Kind == "stat" {
+			tags = append(tags, "text-stats-bare-lf")
+		}
 	}
 	return tags
 }
@@ -346,6 +356,7 @@ func fullStack(e *env, prop string, mode int) {
 	w.Shards = 16
 	r := rig.NewRand(e.seed + uint64(mode)*1000003)
 	ttlBeyond = mode == 9
+	withStat = mode == 8
 	var cases []fsCase
 	if rp := replayArg(e); rp != "" {
 		var c fsCase
